@@ -653,6 +653,23 @@ func (g *Gen) seenHeap(in *ssa.Range) string {
 	return h
 }
 
+// seenSeqHeaps names the ghost production order of a range-over-map statement: how many keys have been produced,
+// the j-th produced key and the position at which a key was produced. Pure bookkeeping of the executor (nothing is
+// assumed about them): contracts relate them to seen(k) through their own loop invariants.
+func (g *Gen) seenSeqHeaps(in *ssa.Range) (n, key, pos string) {
+	mt, ok := in.X.Type().Underlying().(*types.Map)
+	if !ok {
+		return "", "", ""
+	}
+	base := sanitize(FuncKey(in.Parent())) + "_" + in.Name()
+	ks := g.TE.SortOf(mt.Key())
+	n, key, pos = "G_ghost_seenn_"+base, "G_ghost_seenkey_"+base, "G_ghost_seenpos_"+base
+	g.TE.noteHeapRaw(n, SInt)
+	g.TE.noteHeapRaw(key, fmt.Sprintf("(Array Int %s)", ks))
+	g.TE.noteHeapRaw(pos, fmt.Sprintf("(Array %s Int)", ks))
+	return
+}
+
 var rangeStates = map[*ssa.Range]*rangeState{}
 
 func (f *frame) execRange(in *ssa.Range, st *State) {
@@ -663,6 +680,9 @@ func (f *frame) execRange(in *ssa.Range, st *State) {
 		rs.seen = g.seenHeap(in)
 		dom, _, ks, _ := g.TE.MapHeaps(in.X.Type())
 		st.heaps[rs.seen] = fmt.Sprintf("((as const (Array %s Bool)) false)", ks)
+		if nH, _, _ := g.seenSeqHeaps(in); nH != "" {
+			st.heaps[nH] = "0"
+		}
 		rs.dom0 = f.c.declare("dom0", fmt.Sprintf("(Array %s Bool)", ks))
 		f.c.emit(fmt.Sprintf("(assert (= %s (ite (= %s nil) ((as const (Array %s Bool)) false) (select %s %s))))", rs.dom0, x.T, ks, st.Heap(dom), x.T))
 		_ = mt
@@ -699,7 +719,17 @@ func (f *frame) execNext(in *ssa.Next, st *State) {
 	// Go: every entry present when the range started and not removed meanwhile is produced exactly once
 	c.assume(st, fmt.Sprintf("(=> (not %s) (forall ((k %s)) (! (=> (and (select %s k) (not (= %s nil)) (select (select %s %s) k)) (select %s k)) :pattern ((select %s k)) :pattern ((select %s k)) :pattern ((select (select %s %s) k)))))", okv, ks, rs.dom0, rs.x.T, st.Heap(dom), rs.x.T, seen, seen, rs.dom0, st.Heap(dom), rs.x.T))
 	st.heaps[rs.seen] = c.define("seen", fmt.Sprintf("(Array %s Bool)", ks), fmt.Sprintf("(ite %s (store %s %s true) %s)", okv, seen, k, seen))
-	c.assumed["range over a map produces every entry that was present when the loop started and is still present, exactly once, in arbitrary order (Go spec); entries deleted and re-inserted during the loop are not modelled"] = true
+	if nH, keyH, posH := g.seenSeqHeaps(rng); nH != "" {
+		n, key, pos := st.Heap(nH), st.Heap(keyH), st.Heap(posH)
+		st.heaps[keyH] = c.define("seenkey", fmt.Sprintf("(Array Int %s)", ks), fmt.Sprintf("(ite %s (store %s %s %s) %s)", okv, key, n, k, key))
+		st.heaps[posH] = c.define("seenpos", fmt.Sprintf("(Array %s Int)", ks), fmt.Sprintf("(ite %s (store %s %s %s) %s)", okv, pos, k, n, pos))
+		st.heaps[nH] = c.define("seenn", SInt, fmt.Sprintf("(ite %s (+ %s 1) %s)", okv, n, n))
+		// Go: a range over a map that was not modified meanwhile produces each of its len(m) entries exactly once, so when
+		// the iteration ends the number of produced keys is the size of the map (part of the range-over-map assumption)
+		domNow := fmt.Sprintf("(ite (= %s nil) ((as const (Array %s Bool)) false) (select %s %s))", rs.x.T, ks, st.Heap(dom), rs.x.T)
+		c.assume(st, fmt.Sprintf("(=> (and (not %s) (= %s %s)) (= %s (ite (= %s nil) 0 (%s %s))))", okv, domNow, rs.dom0, n, rs.x.T, g.cardUF(ks), rs.dom0))
+	}
+	c.assumed["range over a map produces every entry that was present when the loop started and is still present, exactly once, in arbitrary order, hence len(m) entries when the map is not modified meanwhile (Go spec); entries deleted and re-inserted during the loop are not modelled"] = true
 	vterm := c.define(valName(in)+"_v", g.TE.SortOf(mt.Elem()), fmt.Sprintf("(select (select %s %s) %s)", st.Heap(val), rs.x.T, k))
 	c.assume(st, c.wellFormed(vterm, mt.Elem(), st.next))
 	c.assume(st, c.wellFormed(k, mt.Key(), st.next))
